@@ -40,6 +40,9 @@ Local     == "p1"
 DestOrder == <<"p1", "p2", "p3">>
 
 NoDup(s)  == Cardinality(Range(s)) = Len(s)
+\* Same set; taking the cardinality makes TLC sort its representation once, so that later
+\* membership tests are binary searches (matters on runs with tens of thousands of blocks).
+Norm(S)   == LET T == S IN IF Cardinality(T) < 0 THEN {} ELSE T
 Min2(a, b) == IF a < b THEN a ELSE b
 
 RECURSIVE JoinR(_, _, _)
@@ -249,10 +252,12 @@ OfType(ps, t) == SelectSeq(ps, LAMBDA p : p.type = t)
 \* (index sets rather than sets of event records: cheap for TLC on long runs)
 PutIdx(out) == {i \in DOMAIN out.evs : out.evs[i].t = "put"}
 DeliveredSet(out) ==
-    {out.evs[i].blk : i \in {j \in PutIdx(out) : \E k \in DOMAIN out.evs[j].res : out.evs[j].res[k].r = "ok"}}
+    Norm({out.evs[i].blk : i \in {j \in PutIdx(out) : \E k \in DOMAIN out.evs[j].res : out.evs[j].res[k].r = "ok"}})
 SentTo(out, ids) ==
-    UNION {{out.evs[i].res[k].d : k \in DOMAIN out.evs[i].res} : i \in {j \in PutIdx(out) : out.evs[j].blk \in ids}}
-DataIds(in)       == {in.blk[in.stream[i]].id : i \in DOMAIN in.stream}
+    LET I == Norm(ids)
+        at(d) == \E j \in PutIdx(out) : out.evs[j].blk \in I /\ \E k \in DOMAIN out.evs[j].res : out.evs[j].res[k].d = d
+    IN {d \in Range(DestOrder) : at(d)}
+DataIds(in)       == Norm({in.blk[in.stream[i]].id : i \in DOMAIN in.stream})
 
 Lk(G, x) == IF x \in DOMAIN G THEN G[x].links ELSE <<>>
 Sz(G, x) == IF x \in DOMAIN G THEN G[x].size ELSE 0
@@ -260,8 +265,13 @@ Sz(G, x) == IF x \in DOMAIN G THEN G[x].size ELSE 0
 RECURSIVE ReachR(_, _, _)
 ReachR(G, seen, frontier) ==
     IF frontier = {} THEN seen
-    ELSE LET now == seen \cup frontier
-         IN ReachR(G, now, (UNION {Range(Lk(G, x)) : x \in frontier}) \ now)
+    ELSE LET now == Norm(seen \cup frontier)
+             \* (blocks without links - the vast majority - contribute nothing)
+             src == {x \in frontier : Lk(G, x) # <<>>}
+             ss  == SetToSeq(src)
+             \* (TLC's UNION is quadratic in the number of elements; concatenation is not)
+             nxt == Range(FlattenSeq([i \in DOMAIN ss |-> Lk(G, ss[i])]))
+         IN ReachR(G, now, nxt \ now)
 Reach(G, roots) == ReachR(G, {}, roots)
 
 \* the data blocks a shard node links to (through indirection nodes), in order
@@ -271,6 +281,10 @@ DataLinks(G, D, x) ==
     IN IF \A i \in DOMAIN l : l[i] \in D THEN l
        ELSE FlattenSeq([i \in DOMAIN l |-> IF l[i] \in D THEN <<l[i]>> ELSE DataLinks(G, D, l[i])])
 
+\* the shard's own nodes (root and indirection leaves)
+RECURSIVE MetaUnder(_, _, _)
+MetaUnder(G, D, x) ==
+    LET l == Lk(G, x) IN {x} \cup UNION {MetaUnder(G, D, l[i]) : i \in {j \in DOMAIN l : l[j] \notin D}}
 MaxOf(S) == Max(S)
 \* how many link hops separate a shard node from the farthest data block it covers
 RECURSIVE Height(_, _, _)
@@ -331,7 +345,7 @@ PinsOnSuccess(in, out) ==
              /\ metas[1].cid = out.root /\ metas[1].ref = cdags[1].cid /\ metas[1].name = in.name
              /\ cdags[1].ref = out.root
              /\ NoDup([i \in DOMAIN sh |-> sh[i].cid])
-             /\ {sh[i].cid : i \in DOMAIN sh} \subseteq Reach(out.graph, {cdags[1].cid})
+             /\ {sh[i].cid : i \in DOMAIN sh} \subseteq MetaUnder(out.graph, DataIds(in), cdags[1].cid)
              /\ \A i \in DOMAIN sh :
                    /\ sh[i].rmin = in.rmin /\ sh[i].rmax = in.rmax
                    /\ AllocsAsSent(in, out, sh[i], Range(DataLinks(out.graph, DataIds(in), sh[i].cid)))
@@ -342,20 +356,16 @@ PinsOnSuccess(in, out) ==
 \* own nodes).  "Everywhere" pins (empty list) are covered by any daemon; local adds are exempt
 \* from the allocation clause (blocks go to the local daemon by design) but not from storage.
 StoredAt(out, d) ==
-    {out.evs[i].blk : i \in {j \in PutIdx(out) :
-        \E k \in DOMAIN out.evs[j].res : out.evs[j].res[k].d = d /\ out.evs[j].res[k].r = "ok"}}
-\* the shard's own nodes (root and indirection leaves)
-RECURSIVE MetaUnder(_, _, _)
-MetaUnder(G, D, x) ==
-    LET l == Lk(G, x) IN {x} \cup UNION {MetaUnder(G, D, l[i]) : i \in {j \in DOMAIN l : l[j] \notin D}}
+    Norm({out.evs[i].blk : i \in {j \in PutIdx(out) :
+        \E k \in DOMAIN out.evs[j].res : out.evs[j].res[k].d = d /\ out.evs[j].res[k].r = "ok"}})
 HeldBy(in, st, p, ids) ==
     LET where == IF in.rmin < 0 \/ (in.local /\ ~in.shard) THEN Range(DestOrder) ELSE Range(p.allocs)
-    IN ids \subseteq UNION {st[d] : d \in where \cap DOMAIN st}
+    IN \A x \in ids : \E d \in where \cap DOMAIN st : x \in st[d]
 StoredByAllocation(in, out) ==
     out.ok =>
       LET ps == Pins(out)
           D  == DataIds(in)
-          st == [d \in Range(DestOrder) |-> StoredAt(out, d)]
+          st == [p1 |-> StoredAt(out, "p1"), p2 |-> StoredAt(out, "p2"), p3 |-> StoredAt(out, "p3")]
       IN IF ~in.shard THEN \A i \in DOMAIN ps : ps[i].type = "data" => HeldBy(in, st, ps[i], D)
          ELSE \A p \in Range(OfType(ps, "shard")) :
                  HeldBy(in, st, p, Range(DataLinks(out.graph, D, p.cid)) \cup MetaUnder(out.graph, D, p.cid))
@@ -372,7 +382,8 @@ ContentOK(out) ==
               /\ c.other = "" \/ c.other = c.rootcid
 
 \* the graph arrives as a JSON object (a record): as a function its domain is computed once
-NormGraph(out) == [out EXCEPT !.graph = [y \in DOMAIN out.graph |-> out.graph[y]]]
+\* and (through @@, which yields an explicit function value) applications are indexed look-ups
+NormGraph(out) == [out EXCEPT !.graph = [y \in DOMAIN out.graph |-> out.graph[y]] @@ <<>>]
 
 Preds == <<"StoredByAllocation", "Delivered", "Closed", "Partition", "UnderLimit", "DepthCovers", "PinsOnSuccess", "FailureNoRootPin">>
 Holds(name, in, out) ==
